@@ -229,6 +229,15 @@ pub fn gen_step(r: &mut Rng, rg: &Regime, w: &World, g: &mut GenState) -> Op {
         let id = fresh_id(r, g, &book, false);
         return exec_op(&sender, funds_for(w, &quote, total + fee), json!({"create_bid": {"id": id, "base": cfg.base, "fee": feej, "price": price, "quote": quote, "quote_size": total.to_string(), "size": size.to_string()}}));
     }
+    if kind < 46 && !asks.is_empty() && !cfg.approvers.is_empty() && r.chance(12) {
+        // approval attempts on asks of ANY class (plain, pending, already approved): only pending may pass
+        let a = *r.pick(&asks);
+        let ap = match &a.class {
+            AskClass::Ready { approver, .. } if r.chance(60) => approver.clone(),
+            _ => r.pick(&cfg.approvers).clone(),
+        };
+        return exec_op(&ap, funds_for(w, &cfg.base, a.size), json!({"approve_ask": {"id": a.id, "base": cfg.base, "size": a.size.to_string()}}));
+    }
     if kind < 46 {
         let pend: Vec<&&Ask> = asks.iter().filter(|a| a.class == AskClass::Pending).collect();
         if !pend.is_empty() && !cfg.approvers.is_empty() {
